@@ -92,7 +92,7 @@ func BuildFor(lists []ListSpec, file bool, qs []Query) (*Engines, *filterlist.Ru
 	if qs == nil || need["netall"] || need["netmatch"] {
 		e.Net = urlfilter.NewNetworkEngine(s)
 	}
-	if qs == nil || need["dns"] {
+	if qs == nil || need["dns"] || need["dnsmatch"] {
 		e.DNS = urlfilter.NewDNSEngine(s)
 	}
 	if qs == nil || need["engine"] || need["cosmetic"] {
